@@ -96,6 +96,18 @@ func (r *Report) Rand(stream uint64) *rand.Rand {
 	return rand.New(rand.NewPCG(uint64(r.Seed)*1000003+uint64(r.Lane), stream))
 }
 
+// CaseRand returns the PRNG of case i of a stream: cases are independent, so that a
+// single one can be replayed with VERIF_ONLY=<i>.
+func (r *Report) CaseRand(stream uint64, i int) *rand.Rand {
+	return rand.New(rand.NewPCG(uint64(r.Seed)*1000003+uint64(r.Lane), stream<<32+uint64(i)))
+}
+
+// Only reports whether case i should run (VERIF_ONLY unset or equal to i).
+func (r *Report) Only(i int) bool {
+	v := os.Getenv("VERIF_ONLY")
+	return v == "" || v == strconv.Itoa(i)
+}
+
 // Mine reports whether case index i belongs to this lane.
 func (r *Report) Mine(i int) bool { return r.Lanes <= 1 || i%r.Lanes == r.Lane }
 
